@@ -241,6 +241,48 @@ pub fn ext_matches_reference(input: &[u8], k: u8, invert: bool, after: usize, be
     ok
 }
 
+/// a matcher that only answers the two questions the strategy choice asks
+pub struct MetaMatcher { pub lt: Option<grep_matcher::LineTerminator>, pub nmb: Option<grep_matcher::ByteSet> }
+impl Matcher for MetaMatcher {
+    type Captures = NoCaptures;
+    type Error = NoError;
+    fn find_at(&self, _h: &[u8], _at: usize) -> Result<Option<Match>, NoError> { Ok(None) }
+    fn new_captures(&self) -> Result<NoCaptures, NoError> { Ok(NoCaptures::new()) }
+    fn line_terminator(&self) -> Option<grep_matcher::LineTerminator> { self.lt }
+    fn non_matching_bytes(&self) -> Option<&grep_matcher::ByteSet> { self.nmb.as_ref() }
+}
+
+/// C02 (strategy choice), COMPLETE for its finite domain: the multi-line strategy is chosen iff multi-line
+/// mode was requested AND the matcher does not promise that no match contains the searcher's line
+/// terminator -- either by naming that same terminator, or by listing the terminator's byte (`\n` for CRLF:
+/// a `\r` is neither necessary nor sufficient to end a line) among its non-matching bytes.
+pub fn strategy_choice_ok() -> bool {
+    use grep_matcher::{ByteSet, LineTerminator};
+    let terms = [LineTerminator::byte(b'\n'), LineTerminator::crlf(), LineTerminator::byte(0)];
+    for multi_line in [false, true] { for st in terms { for mlt in [None, Some(terms[0]), Some(terms[1]), Some(terms[2])] {
+        for nm in 0..9u32 {
+            // nm == 8: the matcher reports no set at all; otherwise a set holding a subset of {\n, \r, NUL}
+            let nmb = if nm == 8 { None } else {
+                let mut bs = ByteSet::empty();
+                if nm & 1 != 0 { bs.add(b'\n'); }
+                if nm & 2 != 0 { bs.add(b'\r'); }
+                if nm & 4 != 0 { bs.add(0); }
+                Some(bs)
+            };
+            let excluded_by_set = nmb.as_ref().map_or(false, |b| b.contains(st.as_byte()));
+            let want = multi_line && mlt != Some(st) && !excluded_by_set;
+            let searcher = SearcherBuilder::new().multi_line(multi_line).line_terminator(st).build();
+            let got = searcher.multi_line_with_matcher(&MetaMatcher { lt: mlt, nmb });
+            if got != want {
+                println!("FAILING CASE strategy-choice multi_line={} searcher_terminator={:?} matcher_terminator={:?} non_matching_bytes(code {} of {{\\n=1,\\r=2,NUL=4}}, 8 = none): multi_line_with_matcher = {}, the property demands {}", multi_line, st, mlt, nm, got, want);
+                println!("VERIF_REPLAY_STRATEGY=1");
+                return false;
+            }
+        }
+    }}}
+    true
+}
+
 /// a reader that hands out at most `chunk` bytes per read
 pub struct Chunked<'a> { pub data: &'a [u8], pub pos: usize, pub chunk: usize }
 impl<'a> std::io::Read for Chunked<'a> {
@@ -395,6 +437,9 @@ pub fn replay_main() -> i32 {
     let ctx: usize = std::env::var("VERIF_REPLAY_CTX").ok().and_then(|v| v.parse().ok()).unwrap_or(0);
     let after: usize = std::env::var("VERIF_REPLAY_AFTER").ok().and_then(|v| v.parse().ok()).unwrap_or(ctx);
     let before: usize = std::env::var("VERIF_REPLAY_BEFORE").ok().and_then(|v| v.parse().ok()).unwrap_or(ctx);
+    if std::env::var("VERIF_REPLAY_STRATEGY").is_ok() {
+        return if strategy_choice_ok() { println!("replay: strategy choice agrees in all 216 cases"); 0 } else { 1 };
+    }
     if std::env::var("VERIF_REPLAY_EXT").is_ok() {
         let g = |k: &str| std::env::var(k).ok().and_then(|v| v.parse::<usize>().ok()).unwrap_or(0);
         let (pt, son, chunk) = (g("VERIF_REPLAY_PASSTHRU") != 0, g("VERIF_REPLAY_SON") != 0, g("VERIF_REPLAY_EXTCHUNK"));
@@ -448,6 +493,7 @@ pub fn exhaustive_small() -> bool {
     true
 }
 fn exhaustive_small_mode() -> bool {
+    if !strategy_choice_ok() { return false; }
     let alpha = [b'x', b'\n', b'a'];
     let mut t = [0u8; 5];
     for n in 0..=5usize {
